@@ -47,7 +47,7 @@ def accounting(prep, chunks, how="bytes"):
             return {"key": None, "what": f"{n} complete unit(s) delivered but {returned} message(s) returned and no error raised "
                                          f"(a complete protocol data unit was silently discarded or held back)", "call": idx}
         if status == "bad":
-            return {"key": None, "what": "a unit that cannot be an LDAPMessage (complete header, not a SEQUENCE / indefinite length) is held back instead of raising", "call": idx}
+            return {"key": None, "what": "a complete unit that cannot be an LDAPMessage (not a SEQUENCE), or a header of indefinite length, is held back instead of raising", "call": idx}
     return None
 
 
